@@ -199,6 +199,10 @@ func (t *Queue[T]) Poll(waitIfEmpty bool) T {
 			// immediately return the value if the pending timeouts are supposed to be ignored
 			if t.shutdownFlags.HasBits(IgnorePendingTimeouts) {
 				timeutil.CleanupTimer(timer)
+				if polledElement.Value.isCanceled() {
+					continue
+				}
+
 				return polledElement.Value.Value
 			}
 
@@ -211,6 +215,10 @@ func (t *Queue[T]) Poll(waitIfEmpty bool) T {
 
 			// return the result after the time is reached
 			case <-timer.C:
+				if polledElement.Value.isCanceled() {
+					continue
+				}
+
 				return polledElement.Value.Value
 			}
 
@@ -221,6 +229,12 @@ func (t *Queue[T]) Poll(waitIfEmpty bool) T {
 
 		// return the result after the time is reached
 		case <-timer.C:
+			// several channels can be ready when the select is reached (e.g. if the goroutine was not scheduled for a
+			// while): an element that was canceled in the meantime must not be delivered
+			if polledElement.Value.isCanceled() {
+				continue
+			}
+
 			return polledElement.Value.Value
 		}
 	}
@@ -249,6 +263,16 @@ type QueueElement[T any] struct {
 	timedQueue *Queue[T]
 	cancel     chan byte
 	rawElem    *generalheap.HeapElement[HeapKey, *QueueElement[T]]
+}
+
+// isCanceled returns true if the element was canceled.
+func (timedQueueElement *QueueElement[T]) isCanceled() bool {
+	select {
+	case <-timedQueueElement.cancel:
+		return true
+	default:
+		return false
+	}
 }
 
 // Cancel removed the given element from the queue and cancels its execution.
